@@ -62,7 +62,7 @@ def specialisations(root):
 
 def strip(n):
     """through implicit casts / parentheses"""
-    while n.get("kind") in ("ImplicitCastExpr", "ParenExpr", "ExprWithCleanups", "CStyleCastExpr") and n.get("inner"):
+    while n.get("kind") in ("ImplicitCastExpr", "ParenExpr", "ExprWithCleanups", "CStyleCastExpr", "CXXStaticCastExpr", "CXXReinterpretCastExpr", "CXXConstCastExpr", "CXXFunctionalCastExpr") and n.get("inner"):
         n = n["inner"][0]
     return n
 
@@ -77,12 +77,15 @@ def find(n, kind):
     return None
 
 
-def arg_shape(a):
-    """('this',) | ('addr', param) | ('val', param) | ('other', text)"""
+def arg_shape(a, temps=None):
+    """('this',) | ('addr', param) | ('val', param) | ('other', text); a local pointer temporary stands for its initialiser"""
     a = strip(a)
     if a.get("kind") == "CXXThisExpr":
         return ("this",)
     if a.get("kind") == "DeclRefExpr":
+        rid = a.get("referencedDecl", {}).get("id")
+        if temps and rid in temps:
+            return temps[rid]
         return ("val", a.get("referencedDecl", {}).get("name"))
     if a.get("kind") == "UnaryOperator" and a.get("opcode") == "&":
         x = strip(a["inner"][0])
@@ -109,7 +112,24 @@ def check_one(m, arch, bmi2):
         chk("object is passed to the routine", False, "no use of `this` in the body")
         return obs
     stmts = body.get("inner", []) or []
-    chk("the body is a single statement", len(stmts) == 1, "%d statements" % len(stmts))
+    # leading declarations of local temporaries that merely name an argument (`const void* pa = &a;`) are part of the one call
+    temps = {}
+    while len(stmts) > 1 and stmts[0].get("kind") == "DeclStmt":
+        ok_decl = True
+        for d in stmts[0].get("inner", []):
+            init = [c for c in d.get("inner", []) if c.get("kind") and not c["kind"].endswith("Attr")]
+            if d.get("kind") != "VarDecl" or len(init) != 1:
+                ok_decl = False
+                break
+            sh = arg_shape(init[0], temps)
+            if sh[0] == "other":
+                ok_decl = False
+                break
+            temps[d["id"]] = sh
+        if not ok_decl:
+            break
+        stmts = stmts[1:]
+    chk("the body is a single call (after temporaries that only name its arguments)", len(stmts) == 1, "%d statements" % len(stmts))
     if len(stmts) != 1:
         return obs
     s = stmts[0]
@@ -133,7 +153,7 @@ def check_one(m, arch, bmi2):
         allowed.append("embedded_pairing_core_arch_%s_bmi2_adx_%s" % (arch, base))
     chk("calls the routine of its own class, width and operation", cname in allowed, "calls %s; expected one of %s" % (cname, allowed))
     want = [("this",)] + [(("addr" if p["type"]["qualType"].rstrip().endswith(("&", "&__restrict")) else "val"), p.get("name")) for p in params]
-    got = [arg_shape(a) for a in call["inner"][1:]]
+    got = [arg_shape(a, temps) for a in call["inner"][1:]]
     chk("arguments are (this, operands in the parameters' order)", got == want, "passes %r, expected %r" % (got, want))
     return obs
 
